@@ -28,6 +28,7 @@ RULE = ('Each case = a generated dense-template dataset {raw data int16/float32 
         'the reloaded model with the source, refusal of the source directory as target under several spellings (trailing separator, dot-dot, dot, symlink), content hashes of '
         'the source directory before/after (allowed: temp_wh.dat deleted, _phy_spikes_subset.* added). '
         'non-trivial = distinct conversions with a label, or curated clusters with an empty id, or raw data.')
+RULE += ' Added classes: recordings spanning more than 2**32 samples; output paths with glob metacharacters (also as parent folder); sources shipped with a spike-waveform subset but without raw data; template_scaling in params.py; histories: the same creator converting again with another unit factor, and export / curation in the source / force=True re-export into the same directory.'
 EXHAUSTIVE = {'quick': False, 'thorough': False}
 FLOORS = {'quick': {'evaluations': 600, 'distinct_nontrivial': 300},
           'thorough': {'evaluations': 9000, 'distinct_nontrivial': 5000}}
